@@ -119,7 +119,7 @@ PROPS["C05"] = {
     "assumptions": ["commands terminate"],
 }
 PROPS["C04"] = {
-    "jobs": [{"cmd": "c04s", "shards": 16}, {"cmd": "c04f", "shards": 24}],
+    "jobs": [{"cmd": "c04s", "shards": 16}, {"cmd": "c04f", "shards": 24}, {"cmd": "cli04", "shards": 8}],
     "cli": True, "trusted_base": COORD_TB + ["fault enumeration with real OS faults (directory at the output path, /dev/full, RLIMIT_FSIZE, missing directories, invalid UTF-8) on the library and the CLI binary"],
     "modelled": COORD_MODELLED + ["ENOSPC/EFBIG are produced by the OS, not modelled: checked by the direct oracle only"],
     "level_text": "Lean theorems: a delivered error ends the run with a failure whatever else is in flight; a failing pass yields an error result wherever the file sits; a file whose final pass fails is never in the finished set of any reachable state, hence no state that reports success contains it. On the implementation: every fault kind x position (root/middle/leaf/sibling) x mode, and one failing file per graph under all delivery orders; CLI exit status compared with the library verdict.",
@@ -130,8 +130,8 @@ PROPS["C04"] = {
 }
 
 PROPS["C06"] = {
-    "jobs": [{"cmd": "c06", "shards": 32, "shards_thorough": 48}],
-    "cli": False,
+    "jobs": [{"cmd": "c06", "shards": 32, "shards_thorough": 48}, {"cmd": "cli06", "shards": 8}],
+    "cli": True,
     "trusted_base": ["M7 correspondence: every run of a generated history (library in process, real sh, real file system with sentinel mtimes) vs the Lean whole-run model over the same pre-state tree: verdict, all bytes on success, executed-command markers, touch set", "direct oracles on full-tree snapshots of the real runs"],
     "modelled": WHOLE_FILE_MODELLED,
     "level_text": "Lean theorems: the streaming comparison of the verify sink succeeds iff the existing bytes equal the concatenation of the chunks (any alphabet); a verify pass reports ok iff the output holds exactly the fresh bytes; opening/finishing never changes the file system; verify performs no file-system operation of its own; project level (abstract in what a pass computes, any graph and schedule): if a verify run succeeds, every file in the dependency closure of the inputs was verified and holds exactly the value a build would write, and conversely up-to-date outputs never produce an error while a reached mismatch fails its pass. On the implementation: every tampering class of every output incl. dependency outputs, option mismatch, verdict compared with a fresh build, outputs' (inode, mtime, bytes) unchanged.",
@@ -142,8 +142,8 @@ PROPS["C06"] = {
 }
 
 PROPS["C07"] = {
-    "jobs": [{"cmd": "c07", "shards": 32, "shards_thorough": 48}],
-    "cli": False,
+    "jobs": [{"cmd": "c07", "shards": 32, "shards_thorough": 48}, {"cmd": "cli07", "shards": 8}],
+    "cli": True,
     "trusted_base": ["M7 correspondence: every run of a generated history (library in process, real sh, real file system with sentinel mtimes) vs the Lean whole-run model over the same pre-state tree: verdict, all bytes on success, executed-command markers, touch set", "direct oracles on full-tree snapshots of the real runs"],
     "modelled": WHOLE_FILE_MODELLED,
     "level_text": "Lean theorems: a clean pass - and a complete clean run over any inputs - never invokes a command (proved via an invariant that needs no hypothesis on `run`); its line loop cannot fail whatever directive errors the source contains; it creates no file; it removes the output; whenever build's grouping of the lines into directive blocks succeeds, clean sees exactly the same blocks (escaped directive text is never a directive for clean), build writes and clean removes the same temp target, every other block is a no-op for clean; a temp target with a txtpp name is refused; untouched paths keep their bytes. On the implementation: build->clean restores the exact tree snapshot, clean alone, clean twice, partially removed generated files, erroneous sources, write-escaped temp directives naming existing files.",
@@ -190,8 +190,8 @@ PROPS["C10"] = {
 }
 
 PROPS["C11"] = {
-    "jobs": [{"cmd": "c11", "shards": 32, "shards_thorough": 48}],
-    "cli": False,
+    "jobs": [{"cmd": "c11", "shards": 32, "shards_thorough": 48}, {"cmd": "cli11", "shards": 8}],
+    "cli": True,
     "trusted_base": ["M8 correspondence: library runs on generated trees and input lists vs the Lean whole-run model (resolveInputs, scanDir, naming)", "independent restatement of the processed-set rule in the harness (oracle)"],
     "modelled": WHOLE_FILE_MODELLED + ["std::path::{extension, file_stem, set_extension} (model PathName), canonicalize/exists/is_dir (OS-style walk over the model tree, no symbolic links)"],
     "level_text": 'Lean theorems for ALL names: foo.txtpp -> foo, foo.ext.txtpp -> foo.ext, foo.txtpp.ext is a txtpp source and -> foo.ext (also for dotted foo: finding F6 repaired), whichever source get_txtpp_file finds for an output name has exactly that output (round trip), a source name is never resolved as an output name, look-alikes are not txtpp files; coordinator level: every file ever processed is reachable from an input along dependency edges, and at a successful exit the processed set is exactly the dependency closure of the inputs, each finished once. The processed set (named files by either name, files directly in named directories, recursive only on request, plus transitive dependencies when building/verifying) is compared with the model and with an independent restatement on generated trees x input lists incl. aliases, absolute paths, duplicates, missing targets.',
